@@ -182,6 +182,9 @@ pub enum Op {
     Current,
     /// clone the cursor, continue on the clone, and at the end verify the original is untouched
     CloneSwitch,
+    /// continue on the most recently parked cursor (the original of the last clone), parking the current one:
+    /// original and clone are then used alternately
+    Swap,
 }
 
 /// What the model expects from an operation.
